@@ -3,6 +3,7 @@
 //   harness f   : vec2f / vec3f / quaternionf            (float, plain vectors)
 //   harness fa  : vec3fa (padded, aligned) linear+affine  (float, padded vectors)
 //   harness d   : quaterniond, LinearSpace2<vec2d>::orthogonal (double)
+//   harness dd  : LinearSpace2<vec2d>, LinearSpace3<vec3d>, AffineSpaceT<...> of those (double linear / affine)
 // One case per line:  <kind> <numbers...>   -> one output line "<kind> n1 n2 ..." (same layout as ocaml/C06/driver.ml)
 #include <cstdio>
 #include <cstdlib>
@@ -184,6 +185,34 @@ static bool run_o2(const std::string &kind, In &in)
   return true;
 }
 
+// 2x2 kinds that exist for every element type (used for vec2d; the float run goes through run_l2 below)
+template <typename V2>
+static bool run_l2_any(const std::string &kind, In &in)
+{
+  typedef typename V2::scalar_t T; typedef LinearSpace2<V2> L; typedef AffineSpaceT<L> A;
+  auto v2 = [&]() { T x = T(in.n()), y = T(in.n()); return V2(x, y); };
+  auto m2 = [&]() { V2 a = v2(), b = v2(); return L(a, b); };
+  auto a2 = [&]() { L l = m2(); V2 p = v2(); return A(l, p); };
+  if (kind == "l2") {
+    L a = m2(), b = m2(); V2 v = v2();
+    out.push_back(a.det()); pm2(a.adjoint()); pm2(a.inverse()); pm2(a.transposed()); p2(a.row0()); p2(a.row1());
+    pm2(a * b); p2(a * v); pm2(L::scale(v));
+    return true;
+  }
+  if (kind == "a2") { A a = a2(), b = a2(); pa2(a * b); pa2(rcp(a)); return true; }
+  if (kind == "ol2") {
+    L a = m2(), b = m2();
+    pm2(+a); pm2(a / b);
+    { L c = a; L &r = (c *= b); pm2(c); pm2(r); }
+    { L c = a; L &r = (c /= b); pm2(c); pm2(r); }
+    pb(a == b); pb(a != b); pb(a == a); pb(a != a);
+    pm2(L(zero)); pm2(L(one));
+    return true;
+  }
+  if (kind == "oa2") { A a = a2(), b = a2(); { A c = a; A &r = (c *= b); pa2(c); pa2(r); } return true; }
+  return false;
+}
+
 static bool run_l2(const std::string &kind, In &in)
 {
   typedef LinearSpace2f L; typedef AffineSpace2f A;
@@ -271,6 +300,7 @@ int main(int argc, char **argv)
     if (mode == "f") ok = run_o2<vec2f>(kind, in) || run_l2(kind, in) || Lin3<vec3f>::run(kind, in) || Quat<float>::run(kind, in);
     else if (mode == "fa") ok = Lin3<vec3fa>::run(kind, in);
     else if (mode == "d") ok = run_o2<vec2d>(kind, in) || Quat<double>::run(kind, in);
+    else if (mode == "dd") ok = run_l2_any<vec2d>(kind, in) || Lin3<vec3d>::run(kind, in);
     if (!ok) { printf("%s unsupported\n", kind.c_str()); continue; }
     printf("%s", kind.c_str());
     for (double x : out) printf(" %.17g", x);
